@@ -87,17 +87,14 @@ ser_commb!(ser_bds50, d_bds50);
 ser_commb!(ser_bds60, d_bds60);
 
 // ME variants without a payload struct (type codes 0, 23, 24, 25-27, 30), decoded through ME itself
-harness! {
-    #[kani::unwind(66)]
-    #[kani::stub(alloc::fmt::format, crate::stubs::fmt_stub)]
-    fn ser_me_other(s) {
-        let mut a: [u8; 7] = s.bytes();
-        let which = s.below(7);
-        const TC: [u8; 7] = [0, 23, 24, 25, 26, 27, 30];
-        let mut k = 0;
-        while k < 7 {
-            if which == k as u32 {
-                a[0] = TC[k] << 3;
+macro_rules! ser_me_tc {
+    ($name:ident, $tc:expr) => {
+        harness! {
+            #[kani::unwind(66)]
+            #[kani::stub(alloc::fmt::format, crate::stubs::fmt_stub)]
+            fn $name(s) {
+                let mut a: [u8; 7] = s.bytes();
+                a[0] = $tc << 3;
                 let r = ME::try_from(&a[..]);
                 vcover!(r.is_ok());
                 if let Ok(me) = r {
@@ -106,10 +103,15 @@ harness! {
                     core::mem::forget(me);
                 }
             }
-            k += 1;
         }
-    }
+    };
 }
+ser_me_tc!(ser_me_tc00, 0u8);
+ser_me_tc!(ser_me_tc23, 23u8);
+ser_me_tc!(ser_me_tc24, 24u8);
+ser_me_tc!(ser_me_tc25, 25u8);
+ser_me_tc!(ser_me_tc27, 27u8);
+ser_me_tc!(ser_me_tc30, 30u8);
 
 // ------------------------------------------------------------ (b) top level: df and icao24
 fn any_capability<S: Src>(s: &mut S) -> Capability {
@@ -163,49 +165,59 @@ fn top_ok(m: &Message, df: &[u8], addr: Option<u32>) {
 }
 
 harness! {
-    #[kani::unwind(66)]
+    #[kani::unwind(17)]
     /// the hand-written Serialize of ICAO / IcaoParity ({:06x} through the REAL format machinery):
     /// six lowercase hex digits of the value, for all 2^24 addresses
     fn hex6_real_format(s) {
         let x = s.u32();
-        vassume!(x < (1 << 24));
-        #[derive(serde::Serialize)]
-        struct W { icao24: ICAO }
-        #[derive(serde::Serialize)]
-        struct P { icao24: IcaoParity }
         let parity = s.bool();
-        let (r, rec) = if parity { record(&P { icao24: IcaoParity(x) }) } else { record(&W { icao24: ICAO(x) }) };
-        let i = rec.icao24.get();
-        vcover!(x == 0xabcdef && r.is_ok());
-        vassert!(r.is_ok() && i.count == 1 && i.has_num && i.num == x, "address value reaches the icao24 entry");
-        vassert!(i.eq_bytes(&hex6(x)), "ICAO / IcaoParity serialise as six lowercase hex digits of the address");
+        vassume!(x < (1 << 24));
+        let got = if parity { crate::recser::capture_str(&IcaoParity(x)) } else { crate::recser::capture_str(&ICAO(x)) };
+        let w = hex6(x);
+        vcover!(x == 0xabcdef && got.is_some());
+        vassert!(matches!(got, Some((b, 6)) if b[0] == w[0] && b[1] == w[1] && b[2] == w[2] && b[3] == w[3] && b[4] == w[4] && b[5] == w[5]),
+                 "ICAO / IcaoParity serialise as six lowercase hex digits of the address");
     }
 }
 
-// the short AP formats and DF11: headers symbolic, address symbolic; real format! for the address
-harness! {
-    #[kani::unwind(66)]
-    #[kani::stub(alloc::fmt::format, crate::stubs::fmt_stub)]
-    /// DF 0, 4, 5, 11 records with symbolic header fields and addresses
-    fn top_short(s) {
-        let which = s.below(4);
-        let addr = s.u32();
-        let other = s.u32();
-        let code = s.u16();
-        vassume!(addr < (1 << 24) && other < (1 << 24));
-        let (fs, dr, um, cap) = (any_fs(s), any_dr(s), any_um(s), any_capability(s));
-        let ap = IcaoParity(addr);
-        let (df, label): (DF, &[u8]) = match which {
-            0 => (DF::ShortAirAirSurveillance { vs: s.u8() & 1, cc: s.u8() & 1, unused: 0, sl: s.u8() & 7, unused1: 0, ri: s.u8() & 15, unused2: 0, ac: AC13Field(code), ap }, b"0"),
-            1 => (DF::SurveillanceAltitudeReply { fs, dr, um, ac: AC13Field(code), ap }, b"4"),
-            2 => (DF::SurveillanceIdentityReply { fs, dr, um, id: IdentityCode(code & 0x7777), ap }, b"5"),
-            _ => (DF::AllCallReply { capability: cap, icao: ICAO(addr), p_icao: ICAO(other) }, b"11"),
-        };
-        let m = Message { crc: if which == 3 { other } else { addr }, df };
-        top_ok(&m, label, Some(addr));
-        core::mem::forget(m);
-    }
+// headers of each downlink format: all header fields and addresses symbolic (one harness per format)
+macro_rules! top_hdr {
+    ($name:ident, $label:expr, $shown:expr, |$s:ident, $addr:ident, $other:ident, $code:ident| $mk:expr) => {
+        harness! {
+            #[kani::unwind(66)]
+            #[kani::stub(alloc::fmt::format, crate::stubs::fmt_stub)]
+            fn $name($s) {
+                let $addr = $s.u32();
+                let $other = $s.u32();
+                let $code = $s.u16();
+                vassume!($addr < (1 << 24) && $other < (1 << 24));
+                let df: DF = $mk;
+                let crc = match &df { DF::AllCallReply { .. } => $other, _ => $addr };
+                let m = Message { crc, df };
+                let label: &[u8] = $label;
+                if $shown {
+                    top_ok(&m, label, Some($addr));
+                } else {
+                    // DF19 / DF24..31 carry no "df" rename and no icao24 entry: they must still serialise cleanly
+                    let (r, rec) = record(&m);
+                    vcover!(r.is_ok());
+                    ok_clean(&r, &rec);
+                    vassert!(rec.df.get().count == 1 && rec.icao24.get().count == 0, "a df entry and no icao24 entry");
+                }
+                core::mem::forget(m);
+            }
+        }
+    };
 }
+top_hdr!(top_df0, b"0", true, |s, addr, other, code| DF::ShortAirAirSurveillance { vs: s.u8() & 1, cc: s.u8() & 1, unused: 0, sl: s.u8() & 7, unused1: 0, ri: s.u8() & 15, unused2: 0, ac: AC13Field(code), ap: IcaoParity(addr) });
+top_hdr!(top_df4, b"4", true, |s, addr, other, code| DF::SurveillanceAltitudeReply { fs: any_fs(s), dr: any_dr(s), um: any_um(s), ac: AC13Field(code), ap: IcaoParity(addr) });
+top_hdr!(top_df5, b"5", true, |s, addr, other, code| DF::SurveillanceIdentityReply { fs: any_fs(s), dr: any_dr(s), um: any_um(s), id: IdentityCode(code & 0x7777), ap: IcaoParity(addr) });
+top_hdr!(top_df11, b"11", true, |s, addr, other, code| DF::AllCallReply { capability: any_capability(s), icao: ICAO(addr), p_icao: ICAO(other) });
+top_hdr!(top_df16, b"16", true, |s, addr, other, code| DF::LongAirAirSurveillance { vs: s.u8() & 1, reserved1: 0, sl: s.u8() & 7, reserved2: 0, ri: s.u8() & 15, reserved3: 0, ac: AC13Field(code), mv: s.bytes::<7>().to_vec(), ap: IcaoParity(addr) });
+top_hdr!(top_df20_empty, b"20", true, |s, addr, other, code| DF::CommBAltitudeReply { fs: any_fs(s), dr: any_dr(s), um: any_um(s), ac: AC13Field(code), bds: DF20DataSelector::default(), ap: IcaoParity(addr) });
+top_hdr!(top_df21_empty, b"21", true, |s, addr, other, code| DF::CommBIdentityReply { fs: any_fs(s), dr: any_dr(s), um: any_um(s), id: IdentityCode(code & 0x7777), bds: DF21DataSelector::default(), ap: IcaoParity(addr) });
+top_hdr!(top_df19, b"", false, |s, addr, other, code| DF::ExtendedSquitterMilitary { af: s.u8() & 7 });
+top_hdr!(top_df24, b"", false, |s, addr, other, code| DF::CommDExtended { spare: 0, ke: if s.bool() { KE::DownlinkELMTx } else { KE::UplinkELMAck }, nd: s.u8() & 15, md: s.bytes::<10>().to_vec(), parity: ICAO(addr) });
 
 macro_rules! top_adsb {
     ($name:ident, $dec:ident, $pre:expr, $wrap:path) => {
@@ -249,39 +261,6 @@ top_adsb!(top_adsb_bds61, d_bds61, |_| true, ME::BDS61);
 top_adsb!(top_adsb_bds62, d_bds62, |_| true, ME::BDS62);
 top_adsb!(top_adsb_bds65, d_bds65, |_| true, ME::BDS65);
 
-harness! {
-    #[kani::unwind(66)]
-    #[kani::stub(alloc::fmt::format, crate::stubs::fmt_stub)]
-    /// long AP formats with an empty Comm-B selector / any ACAS MV field, DF19, DF24..31
-    fn top_long_headers(s) {
-        let which = s.below(5);
-        let addr = s.u32();
-        let code = s.u16();
-        let mv: [u8; 7] = s.bytes();
-        let md: [u8; 10] = s.bytes();
-        vassume!(addr < (1 << 24));
-        let (fs, dr, um) = (any_fs(s), any_dr(s), any_um(s));
-        let ap = IcaoParity(addr);
-        let (df, label, shown): (DF, &[u8], Option<u32>) = match which {
-            0 => (DF::LongAirAirSurveillance { vs: s.u8() & 1, reserved1: 0, sl: s.u8() & 7, reserved2: 0, ri: s.u8() & 15, reserved3: 0, ac: AC13Field(code), mv: mv.to_vec(), ap }, b"16", Some(addr)),
-            1 => (DF::CommBAltitudeReply { fs, dr, um, ac: AC13Field(code), bds: DF20DataSelector::default(), ap }, b"20", Some(addr)),
-            2 => (DF::CommBIdentityReply { fs, dr, um, id: IdentityCode(code & 0x7777), bds: DF21DataSelector::default(), ap }, b"21", Some(addr)),
-            3 => (DF::ExtendedSquitterMilitary { af: s.u8() & 7 }, b"", None),
-            _ => (DF::CommDExtended { spare: 0, ke: if s.bool() { KE::DownlinkELMTx } else { KE::UplinkELMAck }, nd: s.u8() & 15, md: md.to_vec(), parity: ICAO(addr) }, b"", None),
-        };
-        let m = Message { crc: addr, df };
-        if which < 3 {
-            top_ok(&m, label, shown);
-        } else {
-            // DF19 / DF24 carry no "df" rename: they must still serialise cleanly
-            let (r, rec) = record(&m);
-            ok_clean(&r, &rec);
-            vassert!(rec.df.get().count == 1, "a df entry is present");
-        }
-        core::mem::forget(m);
-    }
-}
-
 macro_rules! top_commb {
     ($name:ident, $dec:ident, $field:ident) => {
         harness! {
@@ -321,36 +300,40 @@ top_commb!(top_commb_bds50, d_bds50, bds50);
 top_commb!(top_commb_bds60, d_bds60, bds60);
 top_commb!(top_commb_bds05, d_bds05, bds05);
 
-harness! {
-    #[kani::unwind(66)]
-    #[kani::stub(alloc::fmt::format, crate::stubs::fmt_stub)]
-    /// a timed record keeps the input frame as lowercase hex (short and long frames, no decoded message)
-    fn timed_frame(s) {
-        let f: [u8; 14] = s.bytes();
-        let long = s.bool();
-        let ts = s.u32();
-        let n = if long { 14 } else { 7 };
-        let t = TimedMessage { timestamp: ts as f64, frame: f[..n].to_vec(), message: None, metadata: vec![], decode_time: None };
-        let (r, rec) = record(&t);
-        vcover!(r.is_ok() && long);
-        ok_clean(&r, &rec);
-        let fr = rec.frame.get();
-        vassert!(fr.count == 1 && fr.is_str && fr.len == 2 * n, "frame entry is a string of 2 hex digits per byte");
-        const D: &[u8; 16] = b"0123456789abcdef";
-        let mut i = 0;
-        while i < n {
-            vassert!(fr.buf[2 * i] == D[(f[i] >> 4) as usize] && fr.buf[2 * i + 1] == D[(f[i] & 15) as usize], "frame entry is the lowercase hex of the input bytes");
-            i += 1;
+macro_rules! timed {
+    ($name:ident, $n:expr) => {
+        harness! {
+            #[kani::unwind(66)]
+            #[kani::stub(alloc::fmt::format, crate::stubs::fmt_stub)]
+            /// a timed record keeps the input frame as lowercase hex (no decoded message)
+            fn $name(s) {
+                const N: usize = $n;
+                let f: [u8; N] = s.bytes();
+                let ts = s.u32();
+                let t = TimedMessage { timestamp: ts as f64, frame: f.to_vec(), message: None, metadata: vec![], decode_time: None };
+                let (r, rec) = record(&t);
+                vcover!(r.is_ok());
+                ok_clean(&r, &rec);
+                let fr = rec.frame.get();
+                vassert!(fr.count == 1 && fr.is_str && fr.len == 2 * N, "frame entry is a string of 2 hex digits per byte");
+                const D: &[u8; 16] = b"0123456789abcdef";
+                let mut i = 0;
+                while i < N {
+                    vassert!(fr.buf[2 * i] == D[(f[i] >> 4) as usize] && fr.buf[2 * i + 1] == D[(f[i] & 15) as usize], "frame entry is the lowercase hex of the input bytes");
+                    i += 1;
+                }
+                core::mem::forget(t);
+            }
         }
-        core::mem::forget(t);
-    }
+    };
 }
+timed!(timed_frame_short, 7);
+timed!(timed_frame_long, 14);
 
-registry!(ser_me_bds05, ser_me_bds06, ser_me_bds08, ser_me_bds09, ser_me_bds61, ser_me_bds62, ser_me_bds65, ser_me_other,
+registry!(ser_me_bds05, ser_me_bds06, ser_me_bds08, ser_me_bds09, ser_me_bds61, ser_me_bds62, ser_me_bds65, ser_me_tc00, ser_me_tc23, ser_me_tc24, ser_me_tc25, ser_me_tc27, ser_me_tc30,
           ser_bds10, ser_bds17, ser_bds18, ser_bds19, ser_bds20, ser_bds21, ser_bds30, ser_bds40, ser_bds44, ser_bds45, ser_bds50, ser_bds60,
-          hex6_real_format, top_short,
+          hex6_real_format, top_df0, top_df4, top_df5, top_df11, top_df16, top_df20_empty, top_df21_empty, top_df19, top_df24,
           top_adsb_bds05, top_adsb_bds06, top_adsb_bds08, top_adsb_bds09, top_adsb_bds61, top_adsb_bds62, top_adsb_bds65,
-          top_long_headers,
           top_commb_bds10, top_commb_bds17, top_commb_bds20, top_commb_bds30, top_commb_bds40, top_commb_bds44, top_commb_bds45,
           top_commb_bds50, top_commb_bds60, top_commb_bds05,
-          timed_frame);
+          timed_frame_short, timed_frame_long);
